@@ -13,6 +13,7 @@ import (
 	"sort"
 	"strings"
 	"sync"
+	"sync/atomic"
 	"time"
 
 	"verif/h"
@@ -86,6 +87,13 @@ func (g *freeGates) Drain() {
 
 const racePause = 300 * time.Microsecond
 
+// raceCloseWait is how long a free-running replay waits for Server.Close once everything is drained. It is not a
+// timing oracle (engine X decides hangs on the virtual clock); it only keeps a deadlocked library from hanging the
+// replay, and is long enough for a machine that is busy with other things.
+const raceCloseWait = 60 * time.Second
+
+var raceHung atomic.Bool
+
 // raceReplay runs one scenario under one schedule, free-running.
 func raceReplay(job raceJob) {
 	// a panic of the library in one of the harness' own goroutines (Server.Close, Shutdown) must
@@ -96,6 +104,9 @@ func raceReplay(job raceJob) {
 		}
 	}
 	defer report()
+	if raceHung.Load() {
+		return // one replay has already shown that Close hangs: that is the verdict, the rest would only wait
+	}
 	sc := job.Sc
 	g := newFreeGates()
 	be := &h.Backend{LMTPSess: sc.LMTP, ByContent: sc.ByContent}
@@ -185,11 +196,12 @@ func raceReplay(job raceJob) {
 	go func() { defer close(closed); defer report(); srv.Close() }()
 	select {
 	case <-closed:
-	case <-time.After(5 * time.Second):
+	case <-time.After(raceCloseWait):
 		// not a timing oracle on a working library: Close has nothing left to wait for here (every gate is
 		// open, every client has hung up). The deterministic verdict comes from engine X; this line makes
 		// the replay report it too instead of hanging.
-		fmt.Printf("RACE-REPLAY-HANG scenario=%s what=Server.Close did not return within 5s after everything was drained\n", job.Sc.Name)
+		raceHung.Store(true)
+		fmt.Printf("RACE-REPLAY-HANG scenario=%s what=Server.Close did not return within 60s after everything was drained\n", job.Sc.Name)
 	}
 	cancel()
 	select {
